@@ -699,3 +699,33 @@ func r17RawTokenReaderStateless(c *cx, id string) {
 	}
 	c.r.Floor(id, "methods of rawTokenReader", n, 1)
 }
+
+// r17JoinOptionsPerCall (C18.29): the options of a join (nickname, password,
+// history) belong to that call: JoinPresence starts from an empty
+// configuration - its local of type muc.config is defined by a composite
+// literal - and applies the options it was given. A configuration kept on the
+// channel from the previous join makes a Nick option stick: after a refused
+// nickname a plain rejoin asks for the refused address again.
+func r17JoinOptionsPerCall(c *cx, id string) {
+	f := c.fn(id, "muc", "(*Channel).JoinPresence")
+	if f == nil {
+		return
+	}
+	g := f.Graph()
+	n := 0
+	for _, d := range g.AllDefs() {
+		if eng.TypeStr(d.Var.Type()) != "muc.config" || d.Kind == eng.DefParam {
+			continue
+		}
+		if d.Kind == eng.DefOpaque {
+			continue // fields set by the options
+		}
+		n++
+		okd := d.Kind == eng.DefZero
+		if d.Kind == eng.DefPlain && d.RHS != nil {
+			_, okd = ast.Unparen(d.RHS).(*ast.CompositeLit)
+		}
+		c.r.Check(id, f, "configuration of a join", "K: built afresh for every call (composite literal or zero value)", d.Node.Pos(), okd, "defined by "+f.Prog.NodeStr(d.Node)+": options of an earlier join are applied again")
+	}
+	c.r.Floor(id, "join configurations in JoinPresence", n, 1)
+}
